@@ -297,6 +297,20 @@ impl Transition {
         }
     }
 
+    /// Verification hook: the private vehicle-to-cycle lookup (sorted by vehicle).
+    #[cfg(rssched_verif)]
+    pub fn verif_cycle_lookup(&self) -> Vec<(VehicleIdx, CycleIdx)> {
+        let mut lookup: Vec<_> = self.cycle_lookup.iter().map(|(v, c)| (*v, *c)).collect();
+        lookup.sort();
+        lookup
+    }
+
+    /// Verification hook: the private list of reusable empty cycles.
+    #[cfg(rssched_verif)]
+    pub fn verif_empty_cycles(&self) -> Vec<CycleIdx> {
+        self.empty_cycles.clone()
+    }
+
     fn push_vehicle_to_end_of_cluster(
         cluster: &mut Vec<VehicleIdx>,
         maintenance_counter: &mut MaintenanceCounter,
